@@ -2,7 +2,7 @@
 # usage: tools/seedcheck.sh <seed-dir> <Cxx> [checks...]
 #   validates a seeded change (patch.diff + demo.py in <seed-dir>) on a scratch copy of /repo HEAD (+ working tree) and
 #   runs the given checks (default: Cxx) against the changed copy.  The scratch copy lives under /var/tmp and is removed.
-S="$1"; P="$2"; shift 2
+S="$(cd "$1" && pwd)"; P="$2"; shift 2
 [ -f "$S/patch.diff" ] || { echo "no patch in $S"; exit 9; }
 D=$(mktemp -d /var/tmp/seedchk.XXXXXX)
 trap 'cd /; rm -rf "$D"' EXIT
